@@ -11,6 +11,7 @@ HARNESSES = {
     'c09': dict(flavour='asan', srcs=['c09.cpp']),
     'c03': dict(flavour='asan', srcs=['c03.cpp']),
     'c07': dict(flavour='asan', srcs=['c07.cpp']),
+    'c08': dict(flavour='asan', srcs=['c08.cpp']),
 }
 
 PROPS = {
@@ -175,6 +176,21 @@ PROPS = {
              'followed by a failed kill and a second fire for the fallback victim, or a victim vanishing / being '
              're-created during the wait.',
         assumptions=['a tick landing exactly on the deadline is a don\'t-care'],
+    ),
+    'C08': dict(
+        harness='c08', level='exploration',
+        quick=dict(shards=8, n=600, size=100),
+        thorough=dict(shards=16, n=25000, size=100),
+        rule='one real core detector (pressure_above, pressure_rising_beyond, memory_above, memory_reclaim, swap_free, '
+             'exists, nr_dying_descendants) with generated arguments (both resources, thresholds as integers / % / bare '
+             'MB / K-M-G sizes with generator-computed exact bytes, durations 0..40, fast_fall_ratio, negate, lte, '
+             'count) watching 1-4 cgroups (multi-pattern, wildcards) that appear and disappear, over 5-30 ticks with '
+             'spacing 0-20 s (virtual clock) and values drawn below / equal / just above / far above the threshold. '
+             'Oracle: the documented predicate evaluated over the whole sample history; CONTINUE is observed as the '
+             'following scripted action running that tick. Non-trivial = duration > 0 and the verdict changes at least '
+             'twice (instantaneous detectors: changes at least twice).',
+        assumptions=['first sample of the fast-fall test and of memory_reclaim, and ticks after the watched set changed '
+                     '(memory_reclaim), are don\'t-cares as far as they can influence a verdict'],
     ),
 }
 
